@@ -13,6 +13,8 @@ def row(name):
         how = "concrete replay" + ("" if set(concrete) == set(caught) else " (%s); obligation only in %s" % (", ".join(concrete), ", ".join(p for p in caught if p not in concrete)))
     else:
         how = "obligation only (no-failing-input-found)"
+    if m.get("note"):
+        how += " - but see the note in meta.json (not caught on the final tree)"
     return "| %s | %s | %s | %s |" % (name, m.get("what", "?"), ", ".join(caught) or "-", how)
 
 def main():
